@@ -41,17 +41,24 @@ CHECKS = {
     'C06': ('M', "All inputs of the stated domain: the status returned by now() is proved, per return path, to obey the four decay/pass-through clauses for every ordering of the monotonic "
                  "reading against as_of, as_of+5s and void_after (exact integer nanoseconds, so the +-1 ns neighbours are covered).", NOTE_NOW, TECH_M),
     'C07': ('M', "All finite wire values of the stated range: for every return path of extract_bound_from_tracking the solver proves bound >= 0, bound >= (|offset|+dispersion+delay/2)*1e9 and "
-                 "bound < that sum rounded up (+2^-49 relative enclosure tolerance); the PHC term is checked through the updater (C08).", NOTE_D, TECH_M),
+                 "bound < that sum rounded up (+2^-49 relative enclosure tolerance); the PHC term is added by process_clock_update (read off the MIR, C08 checks the sum), and its source - "
+                 "get_phc_error_bound_from_path - is executed over a byte-level file model: for every decimal string of 1..18 digits (each digit a solver variable; quick: 6 lengths) with or without a "
+                 "newline the value handed on is the number in the file.", NOTE_D + " Stubs for the PHC file reader: byte-level semantics of File::open/read/read_to_string/read_to_end, fs::read_to_string, "
+                 "String/str views, trim, parse::<int>, from_utf8, range slicing; any other std call there ends INCONCLUSIVE.", TECH_M),
     'C08': ('M', "All histories of 1..3 (quick) / 1..4 (thorough) poll outcomes from a fresh daemon, each outcome with arbitrary (bound, class, PHC term, as_of), through the real ShmUpdater and the "
                  "status FSM's vtable: after every step exactly one record is published and it carries the latest synchronised measurement, void_after = as_of+1000 s, the configured drift, and "
                  "(once synchronised) the class of the latest outcome; plus one inductive step from an arbitrary updater state for clauses (a)-(c).", NOTE_D, TECH_M),
-    'C09': ('M', "Same symbolic histories as C08: in every history prefix without a synchronised report the published status is Unknown.", NOTE_D, TECH_M),
-    'C10': ('M', "All 65536 leap values, every non-negative finite update interval up to 2^40 s, every reference-time age of either sign: the class returned by extract_bound_from_tracking equals the "
-                 "documented one (within 1 ns of the eight-interval threshold either neighbouring class is accepted: ages and Durations have 1 ns resolution).", NOTE_D, TECH_M),
-    'C11': ('M+W', "For all 65536 start values (symbolic): the two values write() stores into the generation obey the protocol (odd in flight, even non-zero different final, wrap to 2, "
-                   "continue from an odd value), inductively; and under RC11 a conforming third-party reader (acquire fence / acquire load) never sees data of an update under the previous "
+    'C09': ('M', "Same symbolic histories as C08: in every history prefix without a synchronised report the published status is Unknown; plus, with the real classifier in the loop, a fresh updater "
+                 "processing its first report (arbitrary wire values, update interval of either sign) publishes a status other than Unknown only if that report is synchronised and fresh by the documented rules.", NOTE_D, TECH_M),
+    'C10': ('M', "All 65536 leap values, every finite update interval in [-2^40, 2^40] s (for a negative interval the threshold is 0), every reference-time age of either sign: the class returned by "
+                 "extract_bound_from_tracking equals the documented one (within 1 ns of the eight-interval threshold either neighbouring class is accepted: ages and Durations have 1 ns resolution); and "
+                 "that class is the status of the record published after the report, for every history of <= 3 (quick) / 4 (thorough) poll outcomes ending in a report (each FSM state, each value of "
+                 "private updater state such a history produces; reports carry symbolic reference times, so repeated reports are included).", NOTE_D, TECH_M),
+    'C11': ('M+W', "For all 65536 values a previous writer can have left in the segment (symbolic) and for a wiped segment: a writer created by the real ShmWriter::new stores two values into the "
+                   "generation per write() that obey the protocol (odd in flight, even non-zero different final, wrap to 2, continue from an odd value); inductive when write() keeps no private state, "
+                   "otherwise chained over 3 (quick) / 6 (thorough) successive writes; and under RC11 a conforming third-party reader (acquire fence / acquire load) never sees data of an update under the previous "
                    "even generation, nor the final generation before the data (N <= 2/3 updates).", NOTE_W, TECH_W),
-    'C12': ('M', "All paths of one iteration of the poller loop: the monotonic (COARSE) clock is read before chronyd is queried, exactly once, and the as-of instant attached to a report is that reading; "
+    'C12': ('M', "All paths of one iteration of the poller loop: the monotonic (COARSE) clock is read before chronyd is queried, and the as-of instant attached to a report is a well-formed timespec not later than that reading; "
                  "all return paths of ClockErrorBound::now(): REALTIME is read first, the monotonic clock second, and the interval is centred on the first reading. The order is structural, so it holds "
                  "for every delay between the steps.", NOTE_D, TECH_M),
     'C13': ('M+K', "All combinations of environment answers in one iteration of the real poller loop (clock read, chronyd answer, PHC configured, reference ids, PHC read, grace period): exactly one message to "
@@ -68,15 +75,17 @@ CHECKS = {
             "valgrind memcheck for uninitialised reads). Kinds of path (directory, missing file) appear only as the failing system call they cause; file-system semantics are outside.", TECH_M),
     'C17': ('M+CBMC', "Constants of the real compilers on every run: -Zprint-type-sizes layout of ShmHeader/ClockErrorBound and the offsets extracted from the writer's/reader's pointer arithmetic equal the table "
                       "transcribed from docs/PROTOCOL.md; CBMC proves 17 sizeof/offsetof/enumerator assertions on the real clockbound.h against the Rust FFI types; engine M proves that clockbound_now and "
-                      "ClockBoundClient::now return the same interval/status/error kind/errno for every (snapshot result, now() result), and that both From<ShmError> conversions agree. "
-                      "A native cross-check runs both libraries on 12 segment files under one virtual clock.",
+                      "ClockBoundClient::now return the same interval/status/error kind/errno for every (snapshot result, now() result), that clockbound_open and new_with_path perform the same reader operations "
+                      "(ShmReader::new only) with the same error mapping, and that both From<ShmError> conversions agree; ShmWriter::write over a typed record stores every field for every start generation. "
+                      "A native cross-check runs both libraries on 12 segment files and 3 open-then-change scenarios under one virtual clock.",
             "Trusted: rustc's layout dump, CBMC's C front end, the MIR translator, z3. The layout part is a comparison of constants (the solver's verdict there is trivial; the value is that the numbers "
             "come from the real compilers). A C *program* built against libclockbound is not symbolically executed.", TECH_M + "; CBMC on the C header"),
     'C18': ('M+W', "Termination by induction, no unrolling bound: a loop-carried counter of snapshot()'s retry loop is proved to decrease on every retry path and to force an exit at 0; the "
                    "initial budget is a constant read from the MIR, giving an explicit bound on shared accesses per call; all reader events are loads/fences; stalled-writer RC11 scenarios "
                    "(update cut at any event) admit no stuck state.", NOTE_W, TECH_W),
     'C19': ('M', "All 2^32 + 1 option values: on the release-profile MIR of main (plain u32 arithmetic wraps there), every path that reaches thread_manager::run passes exactly 1000 x the "
-                 "option as integers (1000 when omitted), and every representable rate reaches run on some path; counterexamples are replayed with the real release binary started in the sandbox.",
+                 "option as integers (1000 when omitted), and every representable rate reaches run on some path; the record's max_drift_ppb is stored into the segment by every write() (typed execution of "
+                 "ShmWriter::write, any start generation, any prior content - a segment left by a previous daemon included); counterexamples are replayed with the real release binary / the real writer.",
             "Trusted: MIR pretty-printer, the slice executor (data dependences of run()'s first argument plus the branch conditions computed from the option), z3. Stub: Cli::parse() returns an arbitrary "
             "Option<u32>; statements outside the slice are skipped (a mutable borrow of a slice local makes the check inconclusive). clap's own string parsing is outside.", TECH_M),
 }
